@@ -71,12 +71,18 @@ def expected_urls(n_urls, n_attempts, init_retry, max_retry):
     return urls, delays
 
 
-async def one_call(coin, aw, sim, call, faults, n_urls, retry_cfg, tmp, down_urls, rng, out):
+async def one_call(coin, aw, sim, call, faults, n_urls, retry_cfg, tmp, down_urls, rng, out, dcache=None):
     from electrumx.server.daemon import Daemon, DaemonError
     loop = asyncio.get_running_loop()
     urls = ','.join(f'http://u:p@host{i}:8332/' for i in range(n_urls))
     kw = {} if retry_cfg is None else {'init_retry': retry_cfg[0], 'max_retry': retry_cfg[1]}
-    d = Daemon(coin, urls, **kw)
+    # the server keeps one Daemon object for its whole life: with dcache the object (URL index, semaphores) is reused across calls
+    d = dcache.get((n_urls, retry_cfg)) if dcache is not None else None
+    if d is None:
+        d = Daemon(coin, urls, **kw)
+        if dcache is not None:
+            dcache[(n_urls, retry_cfg)] = d
+            out['counters']['daemon_objects_shared_across_calls'] = out['counters'].get('daemon_objects_shared_across_calls', 0) + 1
     d.session = sim
     init_retry, max_retry = d.init_retry, d.max_retry
     log = []     # per attempt: (vtime, url index, fault, reply)
@@ -258,17 +264,27 @@ def child(case):
     sim = SimSession(aw, chunk=case.get('chunk', 700))
     tmp = scratch_dir('exv-c18-')
 
+    dcache = {}
+
     async def main(loop):
         for (call, faults, n_urls, retry_cfg, down) in case['runs']:
+            cur['run'] = [call, list(faults), n_urls, retry_cfg, list(down)]
             aw.attempt = rng.randrange(0, 5)
-            await one_call(coin, aw, sim, call, faults, n_urls, tuple(retry_cfg) if retry_cfg else None, tmp, set(down), rng, out)
+            await one_call(coin, aw, sim, call, faults, n_urls, tuple(retry_cfg) if retry_cfg else None, tmp, set(down), rng, out,
+                           dcache if case.get('shared') else None)
             out['evaluations'] += 1
             if faults or down:
                 out['sigs'].append(digest((call, faults, n_urls, retry_cfg, down)))
             if len(out['violations']) > 8:
                 break
+    cur = {}
     try:
         vloop.run_vloop(main, seed=case['seed'], policy='eager', max_vtime=1e9, max_iter=10 ** 9, max_jobs=10 ** 9)
+    except vloop.Quiescent:
+        # no timer, no I/O, no job left while a call is still awaited: the call is blocked for ever (it is not even retrying)
+        out['violations'].append({'key': 'daemon/call-blocked-for-ever', 'what': f'a daemon call neither returned nor kept retrying: nothing is '
+                                  f'scheduled any more (run {cur.get("run")}, after {out["evaluations"]} completed calls on this Daemon session)',
+                                  'witness': {'run': cur.get('run'), 'completed_calls': out['evaluations']}})
     finally:
         shutil.rmtree(tmp, ignore_errors=True)
     seen, vs = set(), []
@@ -436,7 +452,7 @@ def run(tier, seed, replay=None):
     else:
         runs = gen_runs(tier, seed)
     per = max(1, len(runs) // 64 + 1)
-    cases = [{'seed': seed * 31 + i, 'wseed': 5, 'runs': runs[i:i + per], 'sample': i == 0, 'chunk': (700, 64, 4096)[(i // per) % 3]}
+    cases = [{'seed': seed * 31 + i, 'wseed': 5, 'runs': runs[i:i + per], 'sample': i == 0, 'chunk': (700, 64, 4096)[(i // per) % 3], 'shared': (i // per) % 2 == 1}
              for i in range(0, len(runs), per)]
     rep.absorb(run_cases(child, cases, watchdog=900), 'batch')
     if not replay:
